@@ -1,7 +1,7 @@
 #!/bin/bash
 # usage: intake.sh <ID>...  copies /tmp/seedwt/<ID>.out/{e,f} into seeded/<ID>-e, -f and verifies them (serial)
 for id in "$@"; do
-  for v in e f; do
+  for v in ${VARIANTS:-e f}; do
     src=/tmp/seedwt/$id.out/$v; dst=/verif/seeded/$id-$v
     [ -f $src/patch.diff ] || { echo "$id-$v: no patch"; continue; }
     mkdir -p $dst; cp $src/* $dst/
